@@ -421,17 +421,24 @@ class Interp:
         if spec is None:
             if _assigned_names(st.body) or _has_mutation(st.body):
                 raise Unsupported(f"loop {key} over a symbolic iterable needs a sidecar invariant")
-            # stateless loop (only raises / passes): one Skolem iteration explores its raise paths
+            # stateless loop (its body only checks and raises): summarised exactly.  NoRaise(j) is the disjunction of
+            # the path conditions under which the body completes normally on element j; the loop raises iff some
+            # element raises, and falls through iff NoRaise holds for every element.
+            j0 = self.cx.fresh_int("lj")
+            normal = self.probe(st.body, frame, lambda it2, f2: it2.assign(st.target, seq.get(j0), f2))
             k = self.cx.choose(2, f"loop{key[1]}")
             if k == 0:
-                i = self.cx.fresh_int("it")
-                self.cx.assume(z3.And(0 <= i, i < n))
-                self.assign(st.target, seq.get(i), frame)
+                self.cx.assume(z3.And(0 <= j0, j0 < n))
+                self.assign(st.target, seq.get(j0), frame)
                 try:
                     self.exec_block(st.body, frame)
                 except (_Break, _Continue):
                     pass
                 raise PathEnd()
+            if normal is not None:
+                jq = z3.Int("lj!q")
+                body = z3.substitute(normal, (j0, jq))
+                self.cx.assume(z3.ForAll([jq], z3.Implies(z3.And(0 <= jq, jq < n), body)), tag="stateless-loop summary")
             return
         # -- invariant protocol
         for label, f in spec.inv(self.cx, frame, z3.IntVal(0)):
@@ -462,6 +469,50 @@ class Interp:
         spec.havoc(self.cx, frame, i)
         for label, f in spec.inv(self.cx, frame, i):
             self.cx.assume(f)
+
+    def probe(self, stmts, frame, bind):
+        """Condition (over the current symbols) under which `stmts` complete without raising, or None if it cannot
+        be expressed (the body introduces fresh symbols)."""
+        from .core import Ctx, explore
+        outer = self.cx
+        base = list(outer.pc)
+        normal = []
+        ok = [True]
+
+        def fn(cx2):
+            for f in base:
+                cx2.assume(f)
+            cx2.counter = {k: v + 1000 for k, v in outer.counter.items()}
+            cx2.ghost = outer.ghost
+            start = len(cx2.pc)
+            c0 = dict(cx2.counter)
+            it2 = Interp(self.repo, cx2, self.prims, self.loop_specs, self.overrides)
+            f2 = Frame(frame.func, frame.module, parent=frame.parent, cls=frame.cls)
+            f2.vars = dict(frame.vars)
+            f2.qual = getattr(frame, "qual", "?")
+            f2.self_obj = frame.self_obj
+            bind(it2, f2)
+            kind = "normal"
+            try:
+                it2.exec_block(stmts, f2)
+            except SymRaise:
+                kind = "raise"
+            except (_Break, _Continue):
+                pass
+            fresh_used = {k for k in cx2.counter if cx2.counter[k] != c0.get(k) and not k.startswith("loop") and not k.startswith("choice")}
+            if fresh_used:
+                ok[0] = False
+            if kind == "normal":
+                delta = cx2.pc[start:]
+                normal.append(z3.And(delta) if delta else z3.BoolVal(True))
+            return None
+        try:
+            explore(fn, max_paths=64)
+        except Unsupported:
+            return None
+        if not ok[0]:
+            return None
+        return z3.Or(normal) if normal else z3.BoolVal(False)
 
     def exec_while(self, st, frame):
         key = self.loop_key(frame)
